@@ -364,8 +364,17 @@ class DavSession:
                 pass
         # free: the value is outside the grammar C15 speaks about (a colour without '#'): what it
         # reads back as is not judged, everything else about the request is
+        def vcls(v):
+            if v is None or "\n" not in v:
+                return "plain"
+            rest = v.split("\n")[1:]
+            if any(ln[:1] in ("#", ";") for ln in rest):
+                return "comment-line"
+            if any(ln != ln.strip() for ln in v.split("\n")):
+                return "indented-line"
+            return "multiline"
         ins = [{"p": NEUTRAL.get(p, p), "xp": p, "set": v is not None, "v": self.V(v) if v is not None else 0,
-                "pst": status.get(p) or 0,
+                "pst": status.get(p) or 0, "vcls": vcls(v),
                 "free": bool(v is not None and NEUTRAL.get(p, p) == "color" and not v.startswith("#"))}
                for (p, v) in ops]
         # noop: the instruction sets the value an earlier acknowledged instruction of this session
